@@ -234,7 +234,7 @@ package fri
 
 //@ func (f *Chip) verifyQueryRound(instance InstanceInfo, challenges *variables.FriChallenges, precomputedReducedEval []gl.QuadraticExtensionVariable, initialMerkleCaps []variables.FriMerkleCap, proof *variables.FriProof, xIndex gl.Variable, n uint64, nLog uint64, roundProof *variables.FriQueryRound)
 //@   locals xIndexBits capIndexBits subgroupX subgroupX_QE oldEval i arityBits evals cosetIndexBits xIndexWithinCosetBits leafLookups i newEval fieldEvals j j finalPolyEval
-//@   props C01 C12 C20 C05
+//@   props C01 C13 C12 C20 C05
 //@   circuit
 //@   flag honest-callees-assumed acceptance-asserts
 // completeness is stated for the supported configurations: arity 16 in every reduction step, and a proof of the shape
@@ -292,7 +292,7 @@ package fri
 
 //@ func (f *Chip) VerifyFriProof(instance InstanceInfo, openings Openings, friChallenges *variables.FriChallenges, initialMerkleCaps []variables.FriMerkleCap, friProof *variables.FriProof)
 //@   locals precomputedReducedEvals nLog n idx xIndex roundProof
-//@   props C01 C14 C12 C20 C05
+//@   props C01 C13 C14 C12 C20 C05
 //@   circuit
 //@   flag honest-callees-assumed
 //@   complete_requires f.friParams.Config.NumQueryRounds == len(friProof.QueryRoundProofs) && len(friChallenges.FriQueryIndices) == len(friProof.QueryRoundProofs) && f.friParams.Config.NumQueryRounds <= pow2(32)
